@@ -183,6 +183,69 @@ func vfC01core(c *hx.Ctx) {
 		}
 	}
 	vfRunGrid(c, grid, "C01:")
+	vfC01MtuRaise(c)
+}
+
+// vfC01MtuRaise: the MTU is RAISED while a backlog is queued (allowed at any time): the segments already queued were cut
+// at the old segment size and now all have room. Stream mode, raw core user; a first write leaves six full segments
+// queued, SetMtu before write 1, 2 or 3, then every sequence of four writes over sizes chosen relative to BOTH segment
+// sizes (the difference d, d+-1, the old and the new size, their sum, a small one); loss-free and with the first datagrams
+// lost. The reader must see the bytes in the order written.
+func vfC01MtuRaise(c *hx.Ctx) {
+	type rz struct{ from, to int }
+	raises := []rz{{600, 1400}, {600, 601}, {1000, 1400}}
+	if c.Quick() {
+		raises = raises[:2]
+	}
+	saved := hx.NoCache
+	hx.NoCache = true
+	for _, r := range raises {
+		for _, mode := range []string{"update", "session"} {
+			r, mode := r, mode
+			oldMss, newMss := r.from-IKCP_OVERHEAD, r.to-IKCP_OVERHEAD
+			d := newMss - oldMss
+			sizes := []int{d, 100, newMss, d + newMss, oldMss, d + 1, max(d-1, 1)}
+			nw := 4
+			run := func(e *explore.Exec) explore.Verdict {
+				var s *vfSim
+				var label string
+				out := hx.RunVrt(e, vrt.Config{TimerEarlyCost: -1, Horizon: 24 * time.Hour}, func() {
+					vfResetGlobals()
+					at := 1 + vrt.Choose(3, "SetMtu before write #")
+					cf := vfSimCfg{Mode: mode, Stream: true, SndWnd: [2]int{4, 4}, RcvWnd: [2]int{32, 32}, Mtu: r.from, NoDelay: [4]int{1, 10, 2, 1}, Delay: 5, HorizonMs: 60000, PauseAfter: -1,
+						K: 2, Fates: []int{vfDeliver, vfDrop}}
+					cf.Writes[0] = []int{6 * oldMss}
+					for i := 0; i < nw; i++ {
+						cf.Writes[0] = append(cf.Writes[0], sizes[vrt.Choose(len(sizes), "write size")])
+					}
+					cf.Writes[0] = append(cf.Writes[0], 2*newMss+7)
+					label = fmt.Sprintf("SetMtu(%d->%d) before write #%d of %v", r.from, r.to, at, cf.Writes[0])
+					cf.Trace = hx.Tracing
+					s = vfNewSim(cf)
+					s.owners = []string{"C01:"}
+					s.mtuAtWrite, s.mtuVal = at, r.to
+					s.run()
+				})
+				v := explore.Verdict{Outcome: "ok", NonTriv: true}
+				switch {
+				case out.Status == vrt.Panicked:
+					v.Violation, v.Signature = label+": "+out.Fail+"\n"+out.Stack, "C01:panic:"+vfPanicSite(out.Stack)+":mtu-raised-with-a-backlog"
+				case s != nil && s.fail != "":
+					v.Violation, v.Signature = label+": "+s.fail, s.sig+":mtu-raised-with-a-backlog"
+					v.Detail = strings.Join(s.trace, "\n")
+				case s != nil && !s.mtuAccepted:
+					v.Violation, v.Signature = label+": raising the MTU was refused", "C01:mtu-raise-refused"
+				}
+				if s != nil {
+					v.StateHash = explore.HashString(label)
+				}
+				return v
+			}
+			c.UnitBudget = hx.Pick(c, 15*time.Second, 60*time.Second)
+			c.Explore(fmt.Sprintf("mtu-raise-with-backlog/%s/%d-to-%d", mode, r.from, r.to), map[string]any{"mode": mode, "mtu_from": r.from, "mtu_to": r.to, "write_sizes": sizes, "writes_enumerated": nw, "first_write": 6 * oldMss}, 0, run)
+		}
+	}
+	hx.NoCache = saved
 }
 
 // C02: a healed network always drains the backlog.
